@@ -422,6 +422,12 @@ class Fn:
         notes = []
         self.overlay_name = name
         self.overlay_trace = []
+        dump = os.environ.get('VERIF_OVERLAY_DUMP')      # authoring aid: the rule-processed text an overlay is derived against
+        if dump:
+            os.makedirs(dump, exist_ok=True)
+            open(os.path.join(dump, name + '.src.rs'), 'w').write(self.text)
+            if not os.path.exists(os.path.join(VERIF, 'contracts', name + '.overlay.json')):
+                return self
         skip = _ov.DROP_OPS.get((threading.get_ident(), name), ())
         try:
             self.text = _ov.apply(self.text, _ov.load(name), notes, self.overlay_trace, skip)
